@@ -1,5 +1,7 @@
 from __future__ import annotations
 
+from collections import Counter
+
 import numpy as np
 import numpy.typing as npt
 
@@ -8,16 +10,12 @@ max_size = 10**6
 
 
 def max_pair_coverage(array1: npt.NDArray[np.int32], array2: npt.NDArray[np.int32]) -> float:
-    def hash_pair(el1: np.int32, el2: np.int32):
-        return (el1 * 1471343 - el2) % max_size
-
-    counts = np.zeros(max_size, dtype=np.int32)
+    counts: Counter = Counter()
     tot_len = len(array1)
     for i in range(tot_len):
-        identifier = hash_pair(array1[i], array2[i])
-        counts[identifier] += 1
+        counts[(int(array1[i]), int(array2[i]))] += 1
 
-    return np.max(counts) / tot_len
+    return max(counts.values()) / tot_len
 
 
 if __name__ == '__main__':
